@@ -962,7 +962,13 @@ impl<'a, T: 'a + IO> Interpreter<'a, T> {
         let loop_count_before_fn_call = self.loops.len();
         let if_count_before_fn_call = self.previous_if_was_executed.len();
 
-        match *f.expr.clone() {
+        // function name can be wrapped in redundant parentheses
+        let mut callee = *f.expr.clone();
+        while let parser::Expr::Primary(parser::Primary::Group(inner), _, _) = callee {
+            callee = *inner;
+        }
+
+        match callee {
             parser::Expr::Primary(parser::Primary::Var(func_token), _, _) => {
                 //  Checking if function is built-in
                 if self.built_in_functions.is_built_in(&func_token.lexeme) {
